@@ -250,3 +250,357 @@ Section Names.
     intros x Hx Hy. apply filter_In in Hy as [Hy _]. apply (Hsub _ Hy Hx).
   Qed.
 End Names.
+
+(* ------------------------------------------------------------------ the characterisation *)
+Lemma vis_names_eq priv s own embs :
+  vis_names priv (Tr s own embs) = filter (visn priv) (map m_name own).
+Proof. reflexivity. Qed.
+
+Definition exactly_one_field (priv emb : bool) (n : string) (embs : list tree) : Prop :=
+  List.length (filter (fun f => mem n (iface_names priv emb f)) embs) = 1.
+
+(* current code, every tree: own visible methods, plus — with IncludeEmbedded — the names that
+   Go promotes, that the type does not define itself and that exactly one embedded field's
+   interface provides *)
+Lemma iface_names_spec priv emb t n : wf_tree t ->
+  (In n (iface_names priv emb t) <->
+   In n (vis_names priv t) \/
+   (emb = true /\ ~ In n (vis_names priv t) /\ go_ms t n = true /\
+    exactly_one_field priv emb n (t_emb t))).
+Proof.
+  intros Hwf. destruct t as [s own embs]. inversion Hwf as [? ? ? Hown Hembs]; subst.
+  unfold iface_names. rewrite iface_names_char; [|assumption|].
+  - rewrite vis_names_eq. unfold exactly_one_field, fields_with, iface_names. cbn [t_emb].
+    split; (intros [H|[H1 [H2 [H3 H4]]]]; [left; assumption|right]); auto.
+  - intros f Hf. apply iface_names_NoDup. rewrite Forall_forall in Hembs. auto.
+Qed.
+
+(* the pinned code lacked the method-set condition *)
+Lemma iface_names_orig_spec priv emb t n : wf_tree t ->
+  (In n (iface_names_orig priv emb t) <->
+   In n (vis_names priv t) \/
+   (emb = true /\ ~ In n (vis_names priv t) /\
+    List.length (filter (fun f => mem n (iface_names_orig priv emb f)) (t_emb t)) = 1)).
+Proof.
+  intros Hwf. destruct t as [s own embs]. inversion Hwf as [? ? ? Hown Hembs]; subst.
+  unfold iface_names_orig. rewrite iface_names_char; [|assumption|].
+  - rewrite vis_names_eq. unfold fields_with. cbn [t_emb]. split.
+    + intros [H|[H1 [H2 [H3 H4]]]]; [left; assumption|right]; auto.
+    + intros [H|[H1 [H2 H4]]]; [left; assumption|right].
+      split; [assumption|]. split; [assumption|]. split; [discriminate|assumption].
+  - intros f Hf. apply iface_names_NoDup. rewrite Forall_forall in Hembs. auto.
+Qed.
+
+(* ------------------------------------------------------------------ Go's selector rule *)
+Lemma count_level_app a b n : count_level (a ++ b)%list n = count_level a n + count_level b n.
+Proof. unfold count_level. rewrite filter_app, app_length. reflexivity. Qed.
+
+Lemma count_level_one t n : NoDup (own_names t) ->
+  count_level [t] n = if mem n (own_names t) then 1 else 0.
+Proof. intros _. unfold count_level. simpl. destruct (mem n (own_names t)); reflexivity. Qed.
+
+Lemma ms_level_nil fuel n : ms_level fuel [] n = false.
+Proof. induction fuel; simpl; [reflexivity|assumption]. Qed.
+
+Definition hmax (embs : list tree) : nat :=
+  fold_right (fun x acc => Nat.max (S (height x)) acc) 0 embs.
+Lemma height_hmax s own embs : height (Tr s own embs) = hmax embs.
+Proof. reflexivity. Qed.
+Lemma hmax_cons x r : hmax (x :: r) = Nat.max (S (height x)) (hmax r).
+Proof. reflexivity. Qed.
+
+Lemma height_le s own embs k : height (Tr s own embs) <= S k <-> Forall (fun f => height f <= k) embs.
+Proof.
+  rewrite height_hmax. induction embs as [|x r IH].
+  - split; [constructor|cbn; lia].
+  - rewrite hmax_cons. split.
+    + intros H. constructor; [lia|]. apply IH. lia.
+    + intros H. inversion H as [|? ? H2 H3]; subst. apply IH in H3. lia.
+Qed.
+
+Lemma height_0 s own embs : height (Tr s own embs) <= 0 -> embs = [].
+Proof. destruct embs; [reflexivity|]. rewrite height_hmax, hmax_cons. lia. Qed.
+
+Lemma next_level_heights lvl k :
+  Forall (fun t => height t <= S k) lvl -> Forall (fun t => height t <= k) (flat_map t_emb lvl).
+Proof.
+  induction 1 as [|[s own embs] r Hx Hr IH]; simpl; [constructor|].
+  apply Forall_app. split; [exact (proj1 (height_le _ _ _ _) Hx)|assumption].
+Qed.
+
+Lemma next_level_empty lvl : Forall (fun t => height t <= 0) lvl -> flat_map t_emb lvl = [].
+Proof.
+  induction 1 as [|[s own embs] r Hx Hr IH]; simpl; [reflexivity|].
+  rewrite (height_0 _ _ _ Hx), IH. reflexivity.
+Qed.
+
+(* more fuel than the height of the level changes nothing *)
+Lemma ms_level_fuel : forall fuel lvl n k,
+  Forall (fun t => height t <= fuel) lvl -> ms_level (fuel + k) lvl n = ms_level fuel lvl n.
+Proof.
+  induction fuel as [|f IH]; intros lvl n k H.
+  - destruct k; [reflexivity|]. simpl. destruct (count_level lvl n) as [|[|c]]; try reflexivity.
+    rewrite (next_level_empty _ H). apply ms_level_nil.
+  - simpl. destruct (count_level lvl n) as [|[|c]]; try reflexivity.
+    apply IH. apply next_level_heights. assumption.
+Qed.
+
+Lemma go_ms_fuel t n k : height t <= k -> go_ms t n = ms_level k [t] n.
+Proof.
+  intros H. unfold go_ms. replace k with (height t + (k - height t)) by lia.
+  symmetry. apply ms_level_fuel. constructor; [lia|constructor].
+Qed.
+
+Lemma go_ms_own t n : NoDup (own_names t) -> In n (own_names t) -> go_ms t n = true.
+Proof.
+  intros Hnd Hin. unfold go_ms. destruct (height t); simpl;
+    rewrite (count_level_one _ _ Hnd); apply mem_In in Hin; rewrite Hin; reflexivity.
+Qed.
+
+(* the rule, spelled out for embedding two levels deep *)
+Lemma go_ms_two t n : height t <= 2 -> NoDup (own_names t) ->
+  go_ms t n = if mem n (own_names t) then true
+              else match count_level (t_emb t) n with
+                   | 0 => Nat.eqb (count_level (flat_map t_emb (t_emb t)) n) 1
+                   | 1 => true
+                   | _ => false
+                   end.
+Proof.
+  intros Hh Hnd. rewrite (go_ms_fuel t n 2 Hh). cbn [ms_level].
+  rewrite (count_level_one _ _ Hnd). destruct (mem n (own_names t)); [reflexivity|].
+  cbn [flat_map]. rewrite app_nil_r.
+  destruct (count_level (t_emb t) n) as [|[|c]]; try reflexivity.
+  destruct (count_level (flat_map t_emb (t_emb t)) n) as [|[|c]]; reflexivity.
+Qed.
+
+Lemma go_ms_one t n : height t <= 1 -> NoDup (own_names t) ->
+  go_ms t n = if mem n (own_names t) then true else Nat.eqb (count_level (t_emb t) n) 1.
+Proof.
+  intros Hh Hnd. rewrite go_ms_two by (assumption || lia).
+  destruct (mem n (own_names t)); [reflexivity|].
+  destruct t as [s own embs]. apply height_le in Hh. cbn [t_emb].
+  rewrite (next_level_empty _ Hh).
+  destruct (count_level embs n) as [|[|c]]; reflexivity.
+Qed.
+
+(* ------------------------------------------------------------------ two levels: the words of the property *)
+Lemma wf_own t : wf_tree t -> NoDup (own_names t).
+Proof. intros H. inversion H; subst. assumption. Qed.
+Lemma wf_emb t f : wf_tree t -> In f (t_emb t) -> wf_tree f.
+Proof. intros H Hf. inversion H as [? ? ? _ Hembs]; subst. rewrite Forall_forall in Hembs. auto. Qed.
+
+Lemma visn_filter priv n l : In n (filter (visn priv) l) <-> In n l /\ visn priv n = true.
+Proof. apply filter_In. Qed.
+
+Lemma iface_leaf priv emb t : height t <= 0 -> iface_names priv emb t = vis_names priv t.
+Proof.
+  destruct t as [s own embs]. intros H. rewrite (height_0 _ _ _ H).
+  unfold iface_names. rewrite iface_names_unfold. cbv zeta.
+  destruct (negb emb); [reflexivity|]. simpl. apply app_nil_r.
+Qed.
+
+Lemma length_filter_ext {A} (p q : A -> bool) l :
+  (forall x, In x l -> p x = q x) -> List.length (filter p l) = List.length (filter q l).
+Proof. intros H. rewrite (filter_ext_in _ _ _ H). reflexivity. Qed.
+
+Lemma length_filter_pos {A} (p : A -> bool) l :
+  0 < List.length (filter p l) <-> exists x, In x l /\ p x = true.
+Proof.
+  split.
+  - destruct (filter p l) as [|x r] eqn:E; simpl; [lia|]. intros _.
+    assert (H : In x (filter p l)) by (rewrite E; left; reflexivity).
+    apply filter_In in H. eauto.
+  - intros [x [Hx Hp]]. assert (H : In x (filter p l)) by (apply filter_In; auto).
+    destruct (filter p l); [contradiction|simpl; lia].
+Qed.
+
+Lemma mem_filter_visn priv n t : visn priv n = true -> mem n (vis_names priv t) = mem n (own_names t).
+Proof.
+  intros Hv. unfold vis_names. fold (visn priv).
+  destruct (mem n (own_names t)) eqn:E.
+  - apply mem_In. apply visn_filter. apply mem_In in E. auto.
+  - apply mem_false. intros H. apply visn_filter in H as [H _]. apply mem_In in H. congruence.
+Qed.
+
+(* one level of embedding: the collected names are the visible part of Go's method set *)
+Lemma iface_one priv t n : height t <= 1 -> wf_tree t ->
+  (In n (iface_names priv true t) <-> visn priv n = true /\ go_ms t n = true).
+Proof.
+  intros Hh Hwf. rewrite (iface_names_spec priv true t n Hwf).
+  pose proof (wf_own _ Hwf) as Hnd.
+  rewrite (go_ms_one t n Hh Hnd).
+  destruct t as [s own embs]. rewrite vis_names_eq, visn_filter. cbn [t_emb].
+  change (own_names (Tr s own embs)) with (map m_name own) in *.
+  assert (Hleaf : forall f, In f embs -> height f <= 0).
+  { apply height_le in Hh. rewrite Forall_forall in Hh. exact Hh. }
+  assert (Hfw : visn priv n = true ->
+                List.length (filter (fun f => mem n (iface_names priv true f)) embs) = count_level embs n).
+  { intros Hv. unfold count_level. apply length_filter_ext. intros f Hf.
+    rewrite (iface_leaf priv true f (Hleaf f Hf)). apply mem_filter_visn. assumption. }
+  unfold exactly_one_field. split.
+  - intros [[Hin Hv]|[_ [Hno [Hms H1]]]].
+    + split; [assumption|]. apply mem_In in Hin. rewrite Hin. reflexivity.
+    + assert (Hv : visn priv n = true).
+      { assert (Hp : 0 < List.length (filter (fun f => mem n (iface_names priv true f)) embs)) by lia.
+        apply length_filter_pos in Hp as [f [Hf Hm]]. apply mem_In in Hm.
+        rewrite (iface_leaf priv true f (Hleaf f Hf)) in Hm. destruct f as [s' own' e'].
+        rewrite vis_names_eq in Hm. apply visn_filter in Hm. tauto. }
+      split; [assumption|]. destruct (mem n (map m_name own)); [reflexivity|]. exact Hms.
+  - intros [Hv Hms]. destruct (mem n (map m_name own)) eqn:E.
+    + left. apply mem_In in E. auto.
+    + right. split; [reflexivity|]. split.
+      * intros [H _]. apply mem_In in H. congruence.
+      * split; [assumption|]. rewrite (Hfw Hv). apply Nat.eqb_eq. assumption.
+Qed.
+
+Lemma count_flat_one embs n :
+  count_level (flat_map t_emb embs) n = 1 -> exists f, In f embs /\ count_level (t_emb f) n = 1.
+Proof.
+  induction embs as [|x r IH]; simpl; [unfold count_level; simpl; discriminate|].
+  rewrite count_level_app. intros H.
+  destruct (count_level (t_emb x) n) as [|[|c]] eqn:E.
+  - destruct (IH H) as [f [Hf Hc]]. exists f. auto.
+  - exists x. auto.
+  - lia.
+Qed.
+
+Lemma count_level_zero lvl n f : count_level lvl n = 0 -> In f lvl -> mem n (own_names f) = false.
+Proof.
+  unfold count_level. intros H Hf. destruct (mem n (own_names f)) eqn:E; [|reflexivity].
+  assert (Hin : In f (filter (fun t => mem n (own_names t)) lvl)) by (apply filter_In; auto).
+  destruct (filter _ lvl); [contradiction|discriminate].
+Qed.
+
+Lemma count_level_pos lvl n : 0 < count_level lvl n -> exists f, In f lvl /\ mem n (own_names f) = true.
+Proof. unfold count_level. apply length_filter_pos. Qed.
+
+(* a promoted name comes through some embedded field whose own method set has it *)
+Lemma go_ms_through_field t n : height t <= 2 -> wf_tree t ->
+  go_ms t n = true -> ~ In n (own_names t) -> exists f, In f (t_emb t) /\ go_ms f n = true.
+Proof.
+  intros Hh Hwf Hms Hno. rewrite (go_ms_two t n Hh (wf_own _ Hwf)) in Hms.
+  apply mem_false in Hno. rewrite Hno in Hms.
+  assert (Hf1 : forall f, In f (t_emb t) -> height f <= 1).
+  { destruct t as [s own embs]. apply height_le in Hh. rewrite Forall_forall in Hh. exact Hh. }
+  destruct (count_level (t_emb t) n) as [|[|c]] eqn:E1.
+  - apply Nat.eqb_eq in Hms. destruct (count_flat_one _ _ Hms) as [f [Hf Hc]].
+    exists f. split; [assumption|].
+    rewrite (go_ms_one f n (Hf1 f Hf) (wf_own _ (wf_emb _ _ Hwf Hf))).
+    rewrite (count_level_zero _ _ _ E1 Hf), Hc. reflexivity.
+  - destruct (count_level_pos (t_emb t) n) as [f [Hf Hm]]; [lia|].
+    exists f. split; [assumption|]. apply go_ms_own; [apply wf_own, (wf_emb _ _ Hwf Hf)|].
+    apply mem_In. assumption.
+  - discriminate.
+Qed.
+
+(* embedding at most two levels deep (the property's quantifier): the collected set is the
+   specification in the property's words *)
+Lemma iface_two_levels priv emb t n : height t <= 2 -> wf_tree t ->
+  (In n (iface_names priv emb t) <-> spec_methodb priv emb t n = true).
+Proof.
+  intros Hh Hwf. rewrite (iface_names_spec priv emb t n Hwf).
+  unfold spec_methodb, spec_added. rewrite orb_true_iff, mem_In.
+  assert (Hf1 : forall f, In f (t_emb t) -> height f <= 1 /\ wf_tree f).
+  { intros f Hf. split; [|apply (wf_emb _ _ Hwf Hf)].
+    destruct t as [s own embs]. apply height_le in Hh. rewrite Forall_forall in Hh. auto. }
+  assert (Hvis : In n (vis_names priv t) <-> In n (own_names t) /\ visn priv n = true).
+  { destruct t. rewrite vis_names_eq. apply visn_filter. }
+  split.
+  - intros [H|[He [Hno [Hms H1]]]]; [left; assumption|]. right. subst emb.
+    assert (Hv : visn priv n = true).
+    { assert (Hp : 0 < List.length (filter (fun f => mem n (iface_names priv true f)) (t_emb t)))
+        by (unfold exactly_one_field in H1; lia).
+      apply length_filter_pos in Hp as [f [Hf Hm]]. apply mem_In in Hm.
+      destruct (Hf1 f Hf) as [Hhf Hwff]. apply (iface_one priv f n Hhf Hwff) in Hm. tauto. }
+    unfold visn in Hv. rewrite Hv, Hms. simpl.
+    assert (Hown : mem n (own_names t) = false).
+    { apply mem_false. intros H. apply Hno. apply Hvis. auto. }
+    rewrite Hown. simpl. apply Nat.leb_le.
+    unfold exactly_one_field in H1. rewrite <- H1. apply Nat.eq_le_incl. symmetry.
+    apply length_filter_ext. intros f Hf. destruct (Hf1 f Hf) as [Hhf Hwff].
+    destruct (mem n (iface_names priv true f)) eqn:Em.
+    + apply mem_In in Em. apply (iface_one priv f n Hhf Hwff) in Em. symmetry. tauto.
+    + destruct (go_ms f n) eqn:Eg; [|reflexivity]. exfalso.
+      apply mem_false in Em. apply Em. apply (iface_one priv f n Hhf Hwff). auto.
+  - intros [H|H]; [left; assumption|]. right.
+    rewrite !andb_true_iff in H. destruct H as [He [[[Hv Hms] Hown] Hle]].
+    subst emb. apply negb_true_iff in Hown. apply Nat.leb_le in Hle.
+    split; [reflexivity|]. split.
+    { intros H. apply Hvis in H as [H _]. apply mem_In in H. congruence. }
+    split; [assumption|].
+    destruct (go_ms_through_field t n Hh Hwf Hms) as [f [Hf Hg]]; [apply mem_false; assumption|].
+    assert (Hge : 0 < List.length (filter (fun f => go_ms f n) (t_emb t)))
+      by (apply length_filter_pos; eauto).
+    unfold exactly_one_field.
+    replace (List.length (filter (fun f => mem n (iface_names priv true f)) (t_emb t)))
+      with (List.length (filter (fun f => go_ms f n) (t_emb t))); [lia|].
+    apply length_filter_ext. intros g Hgin. destruct (Hf1 g Hgin) as [Hhg Hwfg].
+    destruct (mem n (iface_names priv true g)) eqn:Em.
+    + apply mem_In in Em. apply (iface_one priv g n Hhg Hwfg) in Em. tauto.
+    + destruct (go_ms g n) eqn:Eg; [|reflexivity]. exfalso.
+      apply mem_false in Em. apply Em. apply (iface_one priv g n Hhg Hwfg). auto.
+Qed.
+
+(* ------------------------------------------------------------------ fit and the private filter *)
+(* every collected method is in Go's method set of the type (any depth): the rendered
+   interface is implemented by the original type as far as names go *)
+Lemma iface_names_fit priv emb t n : wf_tree t ->
+  In n (iface_names priv emb t) -> go_ms t n = true.
+Proof.
+  intros Hwf H. apply (iface_names_spec priv emb t n Hwf) in H as [H|[_ [_ [H _]]]]; [|assumption].
+  destruct t as [s own embs]. rewrite vis_names_eq in H. apply visn_filter in H as [H _].
+  apply go_ms_own; [apply (wf_own _ Hwf)|assumption].
+Qed.
+
+Lemma exported_visn n : visn false n = exported n.
+Proof. reflexivity. Qed.
+
+(* IncludePrivate adds exactly the unexported ones: without it the result is the exported part *)
+Lemma iface_names_private emb : forall t n, wf_tree t ->
+  (In n (iface_names false emb t) <-> In n (iface_names true emb t) /\ exported n = true).
+Proof.
+  induction t as [s own embs IH] using tree_ind'. intros n Hwf.
+  rewrite (iface_names_spec false emb _ n Hwf), (iface_names_spec true emb _ n Hwf).
+  rewrite !vis_names_eq, !visn_filter. cbn [t_emb]. unfold visn at 1 2 3 4. simpl orb.
+  assert (Hcnt : exported n = true ->
+     List.length (filter (fun f => mem n (iface_names false emb f)) embs) =
+     List.length (filter (fun f => mem n (iface_names true emb f)) embs)).
+  { intros He. apply length_filter_ext. intros f Hf.
+    rewrite Forall_forall in IH. specialize (IH f Hf n (wf_emb _ _ Hwf Hf)).
+    destruct (mem n (iface_names false emb f)) eqn:E1; destruct (mem n (iface_names true emb f)) eqn:E2;
+      try reflexivity.
+    - apply mem_In in E1. apply IH in E1 as [E1 _]. apply mem_In in E1. congruence.
+    - apply mem_In in E2. apply mem_false in E1. exfalso. apply E1. apply IH. auto. }
+  unfold exactly_one_field. split.
+  - intros [[Hin He]|[Hemb [Hno [Hms H1]]]].
+    + split; [left; auto|assumption].
+    + assert (He : exported n = true).
+      { assert (Hp : 0 < List.length (filter (fun f => mem n (iface_names false emb f)) embs)) by lia.
+        apply length_filter_pos in Hp as [f [Hf Hm]]. apply mem_In in Hm.
+        rewrite Forall_forall in IH. apply (IH f Hf n (wf_emb _ _ Hwf Hf)) in Hm. tauto. }
+      split; [|assumption]. right. split; [assumption|]. split; [tauto|]. split; [assumption|].
+      rewrite <- (Hcnt He). assumption.
+  - intros [[[Hin _]|[Hemb [Hno [Hms H1]]]] He].
+    + left. auto.
+    + right. split; [assumption|]. split; [tauto|]. split; [assumption|]. rewrite (Hcnt He). assumption.
+Qed.
+
+(* ------------------------------------------------------------------ the pinned code *)
+Definition mk (n : string) : meth := M n [] false [].
+Definition tnode (n : string) (ms : list string) (es : list tree) : tree :=
+  Tr (TNamed (Some ("example.com/p", "p")) n []) (map mk ms) es.
+(* type S struct{ F; G }; F struct{ X }; G struct{ Y; Z }; X, Y, Z each define Foo *)
+Definition tree_S1 : tree :=
+  tnode "S" ["Own"] [tnode "F" [] [tnode "X" ["Foo"] []];
+                     tnode "G" [] [tnode "Y" ["Foo"] []; tnode "Z" ["Foo"] []]].
+
+Lemma tree_S1_wf : wf_tree tree_S1.
+Proof. repeat (constructor; simpl; try tauto); intuition discriminate. Qed.
+
+Lemma iface_orig_witness :
+  height tree_S1 = 2 /\ In "Foo" (iface_names_orig false true tree_S1) /\ go_ms tree_S1 "Foo" = false
+  /\ spec_methodb false true tree_S1 "Foo" = false /\ ~ In "Foo" (iface_names false true tree_S1).
+Proof.
+  split; [reflexivity|]. split; [vm_compute; auto|]. split; [reflexivity|]. split; [reflexivity|].
+  vm_compute. intros [H|[]]. discriminate.
+Qed.
